@@ -878,3 +878,46 @@ func TestVerifC18Historic(t *testing.T) {
 	defer func(old int) { maxDiffLayers = old }(maxDiffLayers)
 	vs.Check(t, 1, func(rt *rapid.T) { c18Scenario(rt, st) })
 }
+
+// TestVerifC18Repro replays the minimal scenario of the known finding written up in
+// notes/C18.md. Skipped unless VERIF_C18_REPRO is set (documentation that runs, not
+// part of the check): it FAILS while the behaviour is present.
+func TestVerifC18Repro(t *testing.T) {
+	if os.Getenv("VERIF_C18_REPRO") == "" {
+		t.Skip("set VERIF_C18_REPRO=1 to run the reproduction")
+	}
+	defer func(old int) { maxDiffLayers = old }(maxDiffLayers)
+	maxDiffLayers = 1
+	cfg := &Config{StateHistory: 0, TrienodeHistory: -1, EnableStateIndexing: true, NoHistoryIndexDelay: true, NoAsyncFlush: true, NoAsyncGeneration: true}
+	db := New(&c18Disk{Database: rawdb.NewDatabase(memorydb.New()), dir: t.TempDir()}, cfg, false)
+	defer db.Close()
+	for deadline := time.Now().Add(40 * time.Second); !db.stateIndexer.inited(); time.Sleep(20 * time.Millisecond) {
+		if time.Now().After(deadline) {
+			t.Skip("VERIF-INCONCLUSIVE: the index initialiser did not finish in 40 s")
+		}
+	}
+	w := newPdbWorld()
+	head := types.EmptyRootHash
+	update := func(id int) error {
+		tr := w.Transition(head, []pdbOp{{pdbOpCreate, id % pdbNumAddrs, 0, 1}, {pdbOpCreate, (id + 1) % pdbNumAddrs, 0, 2}}, w.NextSeq(), false)
+		if err := db.Update(tr.Root, tr.Parent, uint64(id), tr.Nodes, tr.States); err != nil {
+			return err
+		}
+		head = tr.Root
+		return nil
+	}
+	for id := 1; id <= 2; id++ { // disk layer id 1, history 1 written and indexed
+		if err := update(id); err != nil {
+			t.Fatalf("update %d: %v", id, err)
+		}
+	}
+	if err := db.Recover(types.EmptyRootHash); err != nil { // rollback to state id 0
+		t.Fatalf("recover: %v", err)
+	}
+	head = types.EmptyRootHash
+	for id := 1; id <= 2; id++ {
+		if err := update(id); err != nil {
+			t.Fatalf("after Recover(state id 0) the history cannot be continued: update %d: %v (index metadata: %v)", id, err, loadIndexMetadata(db.diskdb, typeStateHistory))
+		}
+	}
+}
